@@ -345,7 +345,8 @@ func (p *eparser) parsePrimary() Expr {
 		}
 		panic(fmt.Errorf("unexpected %q", t.s))
 	case "id":
-		if t.s == "forall" || t.s == "exists" {
+		if (t.s == "forall" || t.s == "exists") && p.peek().k == "id" {
+			// (a Go variable that happens to be called exists / forall is followed by an operator, not a name)
 			q := &EQuant{All: t.s == "forall"}
 			for {
 				v := p.next()
